@@ -963,6 +963,31 @@ pub fn gen_overlay(rng: &mut Rng, removed_variant: bool) -> Scenario {
     Scenario { profile: profile.into(), knobs: sample_knobs(rng, concurrency, false), disk0, ops: b.ops }
 }
 
+/// `overlay-symlink` (C12, one environment fault more): an `overlay` session in which document
+/// `a` reaches `b` through a symbolic link `lb.td -> b.td` lying next to them. The document the
+/// include names is `b`: if `b` is open, its buffer counts.
+pub fn gen_overlay_symlink(rng: &mut Rng) -> Scenario {
+    let mut sc = gen_overlay(rng, false);
+    let a = path_of_key("a");
+    let retarget = |t: &str| t.replace("b.td\"", "lb.td\"");
+    if let Some(FileState::Text(t)) = sc.disk0.get(&a).cloned() {
+        sc.disk0.insert(a.clone(), FileState::Text(retarget(&t)));
+    }
+    for op in sc.ops.iter_mut() {
+        match op {
+            Op::Open { path, text } | Op::Change { path, text } | Op::DiskWrite { path, text } if *path == a => *text = retarget(text),
+            Op::Change2 { path, first, text } if *path == a => {
+                *first = retarget(first);
+                *text = retarget(text);
+            }
+            _ => {}
+        }
+    }
+    sc.disk0.insert(format!("{DIR}/lb.td"), FileState::Link(path_of_key("b")));
+    sc.profile = "overlay-symlink".into();
+    sc
+}
+
 /// `wire` (C09): files with different line structure, every range-bearing message kind,
 /// knobs for non-ASCII text and line endings. Positions are only ever sent for ASCII documents
 /// (what the server does with an *incoming* position is C10's subject); the ranges that come
